@@ -38,22 +38,59 @@ def serialise(deriv, info, a):
     return d, assts
 
 
+def gen_chain(rng):
+    """HMM-like: S -> X(x) init(x);  X(x) -> X(y) t(x,y) | stop(x), optionally through a second nonterminal
+    (X(x) -> Y(y) t(x,y), Y(y) -> X(y) u(y)).  All weights <= 0; the best derivation usually NEEDS the recursion."""
+    n = rng.choice([2, 3, 3, 4])
+    two = rng.random() < 0.3
+    sarity = rng.choice([0, 1])
+    els = {'S': {'t': False, 'type': ['T'] * sarity}, 'X': {'t': False, 'type': ['T']},
+           'i': {'t': True, 'type': ['T']}, 't': {'t': True, 'type': ['T', 'T']}, 'e': {'t': True, 'type': ['T']}}
+    rules = [{'lhs': 'S', 'nodes': ['T'], 'edges': [{'lab': 'X', 'att': [1]}, {'lab': 'i', 'att': [1]}], 'ext': [1] * sarity},
+             {'lhs': 'X', 'nodes': ['T'], 'edges': [{'lab': 'e', 'att': [1]}], 'ext': [1]}]
+    if two:
+        els['Y'] = {'t': False, 'type': ['T']}
+        els['u'] = {'t': True, 'type': ['T']}
+        rules.append({'lhs': 'X', 'nodes': ['T', 'T'], 'edges': [{'lab': 'Y', 'att': [2]}, {'lab': 't', 'att': [1, 2]}], 'ext': [1]})
+        rules.append({'lhs': 'Y', 'nodes': ['T'], 'edges': [{'lab': 'X', 'att': [1]}, {'lab': 'u', 'att': [1]}], 'ext': [1]})
+    else:
+        rules.append({'lhs': 'X', 'nodes': ['T', 'T'], 'edges': [{'lab': 't', 'att': [1, 2]}, {'lab': 'X', 'att': [2]}], 'ext': [1]})
+    rng.shuffle(rules)
+    for r in rules:
+        rng.shuffle(r['edges'])
+    elorder = list(els)
+    rng.shuffle(elorder)
+    wmp = {}
+    for tname, d in els.items():
+        if d['t']:
+            k = n ** len(d['type'])
+            wmp[tname] = [rng.choice([NINF, -6, -5, -4, -3, -2, -1, -1, 0]) for _ in range(k)]
+    if rng.random() < 0.5:
+        wmp['e'] = [NINF] * (n - 1) + [rng.randint(-2, 0)]      # only the last state may stop: the recursion is needed
+    return {'nls': {'T': n}, 'els': els, 'elorder': elorder, 'start': 'S', 'rules': rules,
+            'w': {t: [1] * len(v) for t, v in wmp.items()}, 'wmp': wmp}
+
+
 def drive(args):
     import torch, fggs
     seed, i = args
     rng = rng_for(seed, f'c04-{i}')
     rec = i % 2 == 1
-    a = AG.gen_ag(rng, n_nts=(1, 3), max_rules=2, max_nodes=3, max_edges=3, recursion='any' if rec else 'none',
+    if i % 8 == 7:
+        a = gen_chain(rng)
+    else:
+      a = AG.gen_ag(rng, n_nts=(1, 3), max_rules=2, max_nodes=3, max_edges=3, recursion='any' if rec else 'none',
                   weights='small', dom_sizes=(1, 2, 2, 3), start_arity=(0, 0, 1, 2), p_norules=0.05 if rec else 0.0,
                   mp_range=(-3, 0) if rec else (-4, 4), p_zero=0.15, value_cap=1 << 30)
+    fresh = (i % 5 >= 3) or (i % 16 == 15)
     dtype = torch.float64 if i % 4 < 2 else torch.float32
     cases = []
     sh = AG.shape_of(a, a['start'])
     for sa in itertools.product(*[range(s) for s in sh]):
         c = {'ag': {k: a[k] for k in ('nls', 'els', 'start', 'rules', 'wmp')}, 'sa': list(sa), 'out': 'ok', 'd': [{'rule': 1, 'parent': 0, 'via': 0, 'path': []}],
-             'assts': [[]], 'vit': [0, 0], 'dout': 'ok', 'dw': [0, 0], 'tag': ['recursive' if rec else 'nonrecursive', str(dtype).replace('torch.', '')]}
+             'assts': [[]], 'vit': [0, 0], 'dout': 'ok', 'dw': [0, 0], 'tag': ['recursive' if rec else 'nonrecursive', str(dtype).replace('torch.', '')] + (['fresh_label_objects'] if fresh else []) + (['chain'] if i % 8 == 7 else [])}
         try:
-            g, info = AG.build_fgg(a, 'mp', dtype, implicit_ids=(i % 3 == 0))
+            g, info = AG.build_fgg(a, 'mp', dtype, implicit_ids=(i % 3 == 0), fresh_labels=fresh)
             sr = fggs.ViterbiSemiring(dtype=dtype)
             with warnings.catch_warnings():
                 warnings.simplefilter('ignore')
